@@ -499,3 +499,18 @@ package iscp
 //@ guarded[C09] Conn.replyCallsChsMu: replyCallChs
 //@ guarded[C09] Upstream.mu: sendBuffer, sendBufferPayloadSize, sendBufferDataPointsCount, upstreamChunkResultChs, revDataIDAliases, dataIDAliases
 //@ guarded[C09] Downstream.mu: dataIDAliases, revDataIDAliases, upstreamInfos, upstreamInfoAckBuffer, dataIDAckBuffer, resultAckBuffer
+
+// ---------------------------------------------------------------- C03 / C04: ReadDataPoints
+// Once a chunk has been taken from the stream's channel it is either returned (resolved) and
+// acknowledged exactly once, or its resolution failed; nothing taken is ever dropped silently,
+// and an error return never leaves an acknowledgement behind.
+//@ func (*Downstream).ReadDataPoints
+//@   ghostvar taken bool = false
+//@   ghostvar failed bool = false
+//@   ghostvar acked int = 0
+//@   after recv dataPointsCh: taken = true
+//@   after call wireToDownstreamChunk: failed = (res1 != nil)
+//@   after call pushResultAckBuffer: acked = acked + 1
+//@   ensures[C03,C04] imp(taken && !failed, result1 == nil && result0 != nil && acked == 1)
+//@   ensures[C03,C04] imp(result1 == nil, taken && acked == 1)
+//@   ensures[C04] imp(result1 != nil, acked == 0)
